@@ -72,6 +72,9 @@ def shapes(tier):
     for t in list(META_TEMPLATES) + ['lt', 'sym2', 'empty']:
         out.append({'kind': 'byte', 'template': t, 'special': 'meta', 'g': False, 'groups': 'Bytes', 'pad_to': None})
         out.append({'kind': 'char', 'template': t, 'special': 'meta', 'g': False})
+    for t in ('meta_bar', 'sym2', 'sym1', 'empty'):
+        out.append({'kind': 'byte', 'template': t, 'special': 'onebyte', 'g': False, 'groups': 'Bytes', 'pad_to': None})
+        out.append({'kind': 'char', 'template': t, 'special': 'onebyte', 'g': False})
     out.sort(key=lambda s: -len(TEMPLATES[s['template']]))
     return out
 
